@@ -216,6 +216,8 @@ def hoist_obligations(ctx: Ctx, I: Interp) -> None:
                       f"non-head child ({labels}): {l.kind}",
                       f"the search for the user's <head> stops at a child that is not a head tag ({labels}): a <head> placed after another element is not found "
                       f"and a second <head> is inserted", witness="HTMLDocument(tags.html(tags.body(), tags.head(tags.title('t')))).render()")
+    if nb == 0:
+        nb = _head_search_by_next(ctx, I, mk)
     ctx.min_count("head search: head-found paths", nb, 1)
     # ---- the rest of the function ---------------------------------------------------------------------------------------
     cfg2 = Config()
@@ -229,6 +231,9 @@ def hoist_obligations(ctx: Ctx, I: Interp) -> None:
         x, lp, iv = l.run.__dict__["o"]
         n += 1
         found = l.run.path.memo.get(("loop", ("HTMLDocument._hoist_head_content", 0)))
+        for a_, c_ in l.run.path.memo.items():
+            if isinstance(a_, tuple) and a_ and a_[0] == "next-found":
+                found = 1 if c_ == 0 else 0      # same coding as the loop choice: 0 = nothing found
         calls = [e for e in l.effects if e.kind == "call"]
         ins = [e for e in calls if getattr(e.target, "qual", "") == "Tag.insert"]
         newhead = [e for e in ins if e.value and len(e.value) == 2 and isinstance(e.value[1], SNew) and e.value[1].args == ("head",)]
@@ -295,6 +300,40 @@ def hoist_obligations(ctx: Ctx, I: Interp) -> None:
         ctx.check(order == meta[:1] + listing[:1] + ext[:1], "C11.R3", "order: meta charset, then the listing, then the dependency markup", HOIST,
                   f"order {[getattr(e.target, 'qual', '') for e in order]}", "the head is filled in a different order")
     ctx.min_count("_hoist_head_content returning paths", n, 2)
+
+
+def _head_search_by_next(ctx: Ctx, I: Interp, mk: Any) -> int:
+    """The head search written as next((i for i, child in enumerate(children) if <child is a head tag>), None)."""
+    cfg = Config()
+    cfg.opaque_all = True
+    cfg.coarse_counts = True
+    cfg.loop_effects = False
+    n = 0
+    for l in I.run_function(CORE, "HTMLDocument._hoist_head_content", mk, cfg):
+        srch = [e for e in l.effects if e.kind == "search"]
+        if not srch:
+            continue
+        g = srch[0].target
+        var = srch[0].value
+        child = var.items[1] if isinstance(var, SList) and len(var.items) == 2 else var
+        idx = var.items[0] if isinstance(var, SList) and len(var.items) == 2 else None
+        base = g.base
+        d = getattr(base, "iter_descr", None)
+        while d is not None and d[0] == "enumerate":
+            base = d[1]
+            d = getattr(base, "iter_descr", None)
+        src = base.meta.get("copy_of") if isinstance(base, SObj) and base.meta.get("copy_of") is not None else base
+        okb = isinstance(src, SObj) and (src.meta.get("attr_of") or (None, None))[1] == "children"
+        ctx.check(okb, "C11.R3", "the head search walks the direct children of <html> in order", HOIST, f"next(... in {short(g.base)})", "the <head> search does not walk the direct children in order")
+        nm_obj = child.attrs.get("name") if isinstance(child, SObj) else None
+        uids = {getattr(child, "uid", None), getattr(nm_obj, "uid", None)}
+        labels = [str(lbl) for a, lbl in l.atoms if isinstance(a, tuple) and a[0] in ("isinstance", "eq") and a[1] in uids]
+        conds = sorted(labels)
+        n += 1
+        ctx.check(conds == sorted(["isinstance Tag", "== 'head'"]) and g.elt is idx, "C11.R3", "the first direct child that is a tag named head is taken", HOIST,
+                  f"next() condition {conds}", f"the element picked as the user's <head> satisfies {conds}, not exactly `isinstance(child, Tag) and child.name == 'head'`",
+                  witness="HTMLDocument(tags.html(tags.body(), tags.head(tags.title('t')))).render()")
+    return n
 
 
 def _holds(t: Tuple[Any, ...]) -> bool:
